@@ -158,6 +158,29 @@ fn gen(ctx: &Ctx) -> Vec<String> {
             ));
         }
     }
+    // oversized, never-ending request head (>= 128 KiB, own read burst) alone or behind ordinary
+    // requests, under write back-pressure: exactly one 431, nothing after it
+    for k in 0..=2usize {
+        for p in [0usize, 1] {
+            for big in ["h", "ha,P,{}hb", "ha,{}hb"] {
+                for w in ["-", "P", "P,P", "10,P", "P,20,P,P", "200,P"] {
+                    for (dt, hc) in [(0, 1), (1, 1), (0, 0)] {
+                        if k == 2 && (p == 1 || dt == 1) {
+                            continue;
+                        }
+                        let mut q: Vec<String> = (0..k).map(|_| "G:1:-:n:-".to_owned()).collect();
+                        q.push("L".to_owned());
+                        let mut h: Vec<String> = (0..k).map(|j| format!("p{}:i:200:-:-:b3", if j == 0 { p } else { 0 })).collect();
+                        h.push("p0:i:200:-:-:e".to_owned());
+                        let big = format!("{k}{}", big.replace("{}", &k.to_string()));
+                        let first: Vec<String> = (0..k).map(|j| format!("{j}h")).collect();
+                        let reads = if k == 0 { big } else { format!("{},P,{big}", first.join("+")) };
+                        cases.push(format!("ka=1 dt={dt} hc={hc} wb=32768 q={} h={} r={reads} w={w}", q.join(";"), h.join(";")));
+                    }
+                }
+            }
+        }
+    }
     let mut rng = Rng::new(ctx.seed ^ 0xC03);
     for _ in 0..ctx.budget(2500) {
         cases.push(gen_c03_random(&mut rng));
